@@ -3,3 +3,957 @@ From BVA Require Import Base.Prelude Base.Result Base.Words Base.Limbs.
 From BVA Require Import Model.Core Model.Ops Model.Arith Model.Conv Model.Auto Model.Run Spec.Spec Spec.Prop.
 From BVA Require Import Proofs.Common Proofs.Rechunk Proofs.Lift.
 From Coq Require Import ZifyBool ZifyN ZifyNat.
+From BVA Require Import Proofs.Edit Proofs.Shift.
+
+(* Splice operations (append / prepend) of the three vector types.
+
+   The storage-level proofs are bit-level: a sequence of granule stores (set_int::<u8> for the
+   fixed type, direct u64 word stores for the heap type) turns the storage value R0 into a value
+   R whose bits inside a growing window [lo, hi) (cut at a limit L: the vector length for set_int,
+   the storage size for word stores) are those of the target number T, the others still those of
+   R0 (`spl`).  When the window covers everything that differs between R0 and T, R = T. *)
+
+(* ------------------------------------------------------------------ generic helpers *)
+
+Lemma fold_left_map' {A B C} (f : A -> B -> A) (g : C -> B) l a :
+  fold_left f (map g l) a = fold_left (fun a x => f a (g x)) l a.
+Proof. revert a. induction l as [|x r IH]; intros a; cbn [map fold_left]; [reflexivity|apply IH]. Qed.
+
+Lemma fold_left_ext_in {A B} (f g : A -> B -> A) l a :
+  (forall a x, In x l -> f a x = g a x) -> fold_left f l a = fold_left g l a.
+Proof.
+  revert a. induction l as [|x r IH]; intros a H; cbn [fold_left]; [reflexivity|].
+  rewrite H by (left; reflexivity). apply IH. intros a' y Hy. apply H. right. assumption.
+Qed.
+
+Lemma fold_left_ok {A B} (g : A -> B -> A) l a :
+  fold_left (fun acc i => let! x := acc in Ok (g x i)) l (Ok a) = Ok (fold_left g l a).
+Proof. revert a. induction l as [|x r IH]; intros a; cbn [fold_left bind]; [reflexivity|apply IH]. Qed.
+
+Definition spl (R0 R T lo hi L : N) : Prop :=
+  forall b, N.testbit R b = if (lo <=? b) && (b <? hi) && (b <? L) then N.testbit T b else N.testbit R0 b.
+
+Lemma spl_init R0 T lo L : spl R0 R0 T lo lo L.
+Proof.
+  intros b. destruct (N.leb_spec lo b); destruct (N.ltb_spec b lo); cbn [andb]; try reflexivity. lia.
+Qed.
+
+Lemma spl_step R0 R R' T lo hi L j x :
+  lo <= hi -> spl R0 R T lo hi L ->
+  (forall b, N.testbit R' b = if (hi <=? b) && (b <? hi + j) && (b <? L)
+                              then N.testbit x (b - hi) else N.testbit R b) ->
+  (forall t, t < j -> N.testbit x t = N.testbit T (hi + t)) ->
+  spl R0 R' T lo (hi + j) L.
+Proof.
+  intros Hlo H1 H2 H3 b. rewrite H2, H1.
+  destruct (N.leb_spec hi b) as [A|A]; destruct (N.ltb_spec b (hi + j)) as [B|B];
+    destruct (N.ltb_spec b L) as [C|C]; destruct (N.leb_spec lo b) as [D|D];
+    destruct (N.ltb_spec b hi) as [E|E]; cbn [andb]; try reflexivity; try (exfalso; lia).
+  rewrite H3 by lia. f_equal. lia.
+Qed.
+
+Lemma spl_final R0 R T lo hi L :
+  spl R0 R T lo hi L ->
+  (forall b, b < lo \/ hi <= b \/ L <= b -> N.testbit R0 b = N.testbit T b) -> R = T.
+Proof.
+  intros H1 H2. apply N.bits_inj. intro b. rewrite H1.
+  destruct (N.leb_spec lo b) as [A|A]; destruct (N.ltb_spec b hi) as [B|B];
+    destruct (N.ltb_spec b L) as [C|C]; cbn [andb]; try reflexivity; apply H2; lia.
+Qed.
+
+(* state of a vector being spliced through set_int::<J> *)
+Definition fst' (w : N) (v0 : wv) (T lo hi : N) (r : wv) : Prop :=
+  canon_wv w r /\ wl r = wl v0 /\ lenw (wd r) = lenw (wd v0) /\
+  spl (raw w (wd v0)) (raw w (wd r)) T lo hi (wl v0).
+
+Lemma fst_init w v0 T lo : canon_wv w v0 -> fst' w v0 T lo lo v0.
+Proof. intros H. split; [assumption|]. split; [reflexivity|]. split; [reflexivity|apply spl_init]. Qed.
+
+Lemma fst_step w j v0 T lo idx x r :
+  widths_ok w j -> fst' w v0 T lo (j * idx) r -> lo <= j * idx -> x < 2 ^ j ->
+  (forall t, t < j -> N.testbit x t = N.testbit T (j * idx + t)) ->
+  fst' w v0 T lo (j * idx + j) (v_set_int w j r idx x).
+Proof.
+  intros Hwj (Hc & Hl & Hn & Hs) Hlo Hx Hb.
+  destruct (v_set_int_spec w j r idx x Hwj Hc Hx) as (Hc' & Hl' & Hn' & Hb').
+  split; [assumption|]. split; [congruence|]. split; [congruence|].
+  apply (spl_step _ (raw w (wd r)) _ T lo (j * idx) _ j x); try assumption.
+  intros b. rewrite Hb', Hl. reflexivity.
+Qed.
+
+Lemma fst_fold w j v0 T lo base (idx val : N -> N) k :
+  widths_ok w j -> lo <= j * base ->
+  (forall i, i < k -> idx i = base + i) ->
+  (forall i, i < k -> val i < 2 ^ j) ->
+  (forall i t, i < k -> t < j -> N.testbit (val i) t = N.testbit T (j * (base + i) + t)) ->
+  forall r, fst' w v0 T lo (j * base) r ->
+  fst' w v0 T lo (j * (base + k)) (fold_left (fun acc i => v_set_int w j acc (idx i) (val i)) (nrange k) r).
+Proof.
+  intros Hwj Hlo. induction k as [|k IH] using N.peano_ind; intros Hi Hv Hb r Hr.
+  - rewrite nrange_0, N.add_0_r. exact Hr.
+  - rewrite <- N.add_1_r, nrange_succ, fold_left_app. cbn [fold_left].
+    rewrite (Hi k) by lia.
+    replace (j * (base + (k + 1))) with (j * (base + k) + j) by lia.
+    apply fst_step; try assumption.
+    + apply IH; try assumption; intros; [apply Hi|apply Hv|apply Hb]; lia.
+    + lia.
+    + apply Hv. lia.
+    + intros t Ht. apply Hb; lia.
+Qed.
+
+(* ------------------------------------------------------------------ granules of the operand *)
+
+Section Gran.
+Variables (j S : N) (gb : N -> N).
+Hypothesis Hgb : forall i, gb i = (S / 2 ^ (j * i)) mod 2 ^ j.
+
+Lemma gb_lt i : gb i < 2 ^ j.
+Proof. rewrite Hgb. apply N.mod_lt, pow2_ne0. Qed.
+
+Lemma gb_bit i t : N.testbit (gb i) t = (t <? j) && N.testbit S (t + j * i).
+Proof. rewrite Hgb, mod_pow2_testbit, div_pow2_testbit. reflexivity. Qed.
+
+(* a stored granule made of the top of one operand granule and the bottom of the next *)
+Lemma comb_lt i off : N.lor (shrw (gb i) (j - off)) (shlw j (gb (i + 1)) off) < 2 ^ j.
+Proof. apply Shift.lor_lt; [apply shrw_lt, gb_lt|apply shlw_lt]. Qed.
+
+Lemma comb_bit i off t :
+  0 < off -> off < j -> t < j ->
+  N.testbit (N.lor (shrw (gb i) (j - off)) (shlw j (gb (i + 1)) off)) t = N.testbit S (j * (i + 1) + t - off).
+Proof.
+  intros H0 H1 Ht. rewrite N.lor_spec, shrw_testbit, shlw_testbit, !gb_bit.
+  assert (t <? j = true) as -> by (apply N.ltb_lt; assumption).
+  destruct (N.leb_spec off t) as [A|A]; cbn [andb].
+  - assert (t + (j - off) <? j = false) as -> by (apply N.ltb_ge; lia).
+    assert (t - off <? j = true) as -> by (apply N.ltb_lt; lia). cbn [andb orb]. f_equal. lia.
+  - assert (t + (j - off) <? j = true) as -> by (apply N.ltb_lt; lia).
+    cbn [andb]. rewrite orb_false_r. f_equal. lia.
+Qed.
+
+(* the last stored granule: the top of the last operand granule *)
+Lemma last_bit k off m t :
+  0 < off -> off < j -> t < j -> S < 2 ^ m -> m <= j * (k + 1) ->
+  N.testbit (shrw (gb k) (j - off)) t = N.testbit S (j * (k + 1) + t - off).
+Proof.
+  intros H0 H1 Ht HS Hm. rewrite shrw_testbit, gb_bit.
+  destruct (N.ltb_spec (t + (j - off)) j) as [A|A]; cbn [andb].
+  - f_equal. lia.
+  - symmetry. apply (testbit_high S m); [assumption|lia].
+Qed.
+
+End Gran.
+
+(* the target of an append: old value below position n, operand above *)
+Lemma cat_bit Rv S n b :
+  Rv < 2 ^ n -> N.testbit (Rv + 2 ^ n * S) b = if b <? n then N.testbit Rv b else N.testbit S (b - n).
+Proof. apply concat_testbit. Qed.
+
+(* the first stored granule when the old length is not a multiple of the granule *)
+Lemma first_bit j S gb Rv n slide off t :
+  (forall i, gb i = (S / 2 ^ (j * i)) mod 2 ^ j) ->
+  Rv < 2 ^ n -> n = j * slide + off -> off < j -> t < j ->
+  N.testbit (N.lor ((Rv / 2 ^ (j * slide)) mod 2 ^ j) (shlw j (gb 0) off)) t
+  = N.testbit (Rv + 2 ^ n * S) (j * slide + t).
+Proof.
+  intros Hgb HR Hn Ho Ht.
+  rewrite cat_bit, N.lor_spec, mod_pow2_testbit, div_pow2_testbit, shlw_testbit, (gb_bit j S gb Hgb) by assumption.
+  assert (t <? j = true) as -> by (apply N.ltb_lt; assumption). cbn [andb].
+  destruct (N.leb_spec off t) as [A|A]; cbn [andb].
+  - assert (j * slide + t <? n = false) as -> by (apply N.ltb_ge; lia).
+    rewrite (testbit_high Rv n) by (try assumption; lia).
+    assert (t - off <? j = true) as -> by (apply N.ltb_lt; lia). cbn [andb orb]. f_equal. lia.
+  - assert (j * slide + t <? n = true) as -> by (apply N.ltb_lt; lia).
+    rewrite orb_false_r. f_equal. lia.
+Qed.
+
+(* what the window has to cover for an append *)
+Lemma cat_outside Rv S n m lo hi L b :
+  Rv < 2 ^ n -> S < 2 ^ m -> lo <= n -> n + m <= hi -> n + m <= L ->
+  b < lo \/ hi <= b \/ L <= b -> N.testbit Rv b = N.testbit (Rv + 2 ^ n * S) b.
+Proof.
+  intros HR HS Hlo Hhi HL Hb. rewrite cat_bit by assumption.
+  destruct (N.ltb_spec b n) as [A|A]; [reflexivity|].
+  rewrite (testbit_high Rv n), (testbit_high S m) by (try assumption; lia). reflexivity.
+Qed.
+
+Lemma x_gb_digits j sfx :
+  Good sfx -> std_width j -> forall i, odefault (x_get_int j sfx i) 0 = (val sfx / 2 ^ (j * i)) mod 2 ^ j.
+Proof.
+  intros [Hc Hs] Hj i. unfold x_get_int.
+  apply (v_get_int_digits (xw sfx) j (xv sfx)); [apply std_widths_ok; assumption|apply Canon_wv; assumption].
+Qed.
+
+Lemma x_get_int_some j sfx i :
+  Good sfx -> std_width j -> i * j < xlen sfx ->
+  x_get_int j sfx i = Some ((val sfx / 2 ^ (j * i)) mod 2 ^ j).
+Proof.
+  intros [Hc Hs] Hj Hi. unfold x_get_int.
+  rewrite v_get_int_spec by (try apply std_widths_ok; try apply Canon_wv; assumption).
+  apply N.ltb_lt in Hi. unfold xlen in Hi. rewrite Hi. reflexivity.
+Qed.
+
+(* ------------------------------------------------------------------ Bvf::append *)
+
+Definition fa_core (w : N) (v1 : wv) (slide offset nb : N) (gb : N -> N) : outcome wv :=
+  if offset =? 0 then
+    Ok (fold_left (fun acc i => v_set_int w 8 acc (i + slide) (gb i)) (nrange nb) v1)
+  else if 0 <? nb then
+    let v2 := v_set_int w 8 v1 slide
+                (N.lor (odefault (v_get_int w 8 v1 slide) 0) (shlw 8 (gb 0) offset)) in
+    let rev_offset := 8 - offset in
+    let v3 := fold_left (fun acc i =>
+                           v_set_int w 8 acc (i + slide)
+                             (N.lor (shrw (gb (i - 1)) rev_offset) (shlw 8 (gb i) offset)))
+                        (map (fun i => i + 1) (nrange (nb - 1))) v2 in
+    Ok (v_set_int w 8 v3 (nb + slide) (shrw (gb (nb - 1)) rev_offset))
+  else Ok v1.
+
+Lemma f_append_unfold w v sfx :
+  f_append w v sfx =
+  let! v1 := f_resize w v (wl v + xlen sfx) 0 in
+  fa_core w v1 (wl v / 8) (wl v mod 8) (x_int_len 8 sfx) (fun i => odefault (x_get_int 8 sfx i) 0).
+Proof. reflexivity. Qed.
+
+Lemma fa_core_spec w v1 n m Rv S slide off nb gb :
+  widths_ok w 8 -> canon_wv w v1 -> wl v1 = n + m -> raw w (wd v1) = Rv -> Rv < 2 ^ n -> S < 2 ^ m ->
+  (forall i, gb i = (S / 2 ^ (8 * i)) mod 2 ^ 8) -> n = 8 * slide + off -> off < 8 -> m <= 8 * nb ->
+  exists r, fa_core w v1 slide off nb gb = Ok r /\ canon_wv w r /\ wl r = n + m /\
+            lenw (wd r) = lenw (wd v1) /\ raw w (wd r) = Rv + 2 ^ n * S.
+Proof.
+  intros Hw8 Hc Hl HRv HR HS Hgb Hn Hoff Hm. unfold fa_core.
+  set (T := Rv + 2 ^ n * S).
+  pose proof (fst_init w v1 T (8 * slide) Hc) as H0.
+  assert (forall r hi, fst' w v1 T (8 * slide) hi r -> n + m <= hi ->
+            canon_wv w r /\ wl r = n + m /\ lenw (wd r) = lenw (wd v1) /\ raw w (wd r) = T) as Hfin.
+  { intros r hi (Hcr & Hlr & Hnr & Hs) Hhi. split; [assumption|]. split; [congruence|]. split; [assumption|].
+    apply (spl_final _ _ _ _ _ _ Hs). intros b Hb. rewrite HRv.
+    apply (cat_outside Rv S n m (8 * slide) hi (wl v1)); try assumption; lia. }
+  destruct (N.eqb_spec off 0) as [Ho|Ho].
+  - (* byte aligned *)
+    eexists. split; [reflexivity|].
+    apply (Hfin _ (8 * (slide + nb))); [|lia].
+    apply (fst_fold w 8 v1 T (8 * slide) slide (fun i => i + slide) gb nb); try assumption.
+    + lia.
+    + intros; lia.
+    + intros i _. apply (gb_lt 8 S gb Hgb).
+    + intros i t _ Ht. unfold T. rewrite cat_bit, (gb_bit 8 S gb Hgb) by assumption.
+      assert (t <? 8 = true) as -> by (apply N.ltb_lt; assumption).
+      assert (8 * (slide + i) + t <? n = false) as -> by (apply N.ltb_ge; lia).
+      cbn [andb]. f_equal. lia.
+  - destruct (N.ltb_spec 0 nb) as [Hnb|Hnb].
+    + cbv zeta. eexists. split; [reflexivity|].
+      apply (Hfin _ (8 * (nb + slide) + 8)); [|lia].
+      apply fst_step; try assumption.
+      * (* the middle granules *)
+        rewrite fold_left_map'.
+        replace (8 * (nb + slide)) with (8 * (slide + 1 + (nb - 1))) by lia.
+        apply (fst_fold w 8 v1 T (8 * slide) (slide + 1) (fun i => i + 1 + slide)
+                 (fun i => N.lor (shrw (gb (i + 1 - 1)) (8 - off)) (shlw 8 (gb (i + 1)) off)) (nb - 1));
+          try assumption.
+        -- lia.
+        -- intros; lia.
+        -- intros i _. rewrite N.add_sub. apply (comb_lt 8 S gb Hgb).
+        -- intros i t _ Ht. rewrite N.add_sub, (comb_bit 8 S gb Hgb) by lia.
+           unfold T. rewrite cat_bit by assumption.
+           assert (8 * (slide + 1 + i) + t <? n = false) as -> by (apply N.ltb_ge; lia).
+           f_equal. lia.
+        -- (* the first granule *)
+           replace (8 * (slide + 1)) with (8 * slide + 8) by lia.
+           apply fst_step; try assumption; [lia| |].
+           ++ apply Shift.lor_lt; [|apply shlw_lt].
+              rewrite v_get_int_spec by assumption.
+              destruct (slide * 8 <? wl v1); cbn [odefault]; [apply N.mod_lt, pow2_ne0|reflexivity].
+           ++ intros t Ht. rewrite v_get_int_spec by assumption.
+              assert (slide * 8 <? wl v1 = true) as -> by (apply N.ltb_lt; lia).
+              cbn [odefault]. rewrite HRv. apply (first_bit 8 S gb Rv n slide off t); assumption.
+      * lia.
+      * apply shrw_lt, (gb_lt 8 S gb Hgb).
+      * intros t Ht. replace nb with (nb - 1 + 1) at 2 by lia.
+        rewrite (last_bit 8 S gb Hgb (nb - 1) off m) by (try assumption; lia).
+        unfold T. rewrite cat_bit by assumption.
+        assert (8 * (nb - 1 + 1 + slide) + t <? n = false) as -> by (apply N.ltb_ge; lia).
+        f_equal. lia.
+    + (* empty operand *)
+      exists v1. split; [reflexivity|].
+      apply (Hfin _ (n + m)); [|lia].
+      assert (m = 0) as -> by lia. rewrite N.add_0_r.
+      destruct H0 as (A & B & C & D). split; [assumption|]. split; [assumption|]. split; [assumption|].
+      intros b. rewrite (D b).
+      destruct (N.leb_spec (8 * slide) b); destruct (N.ltb_spec b (8 * slide)); destruct (N.ltb_spec b n);
+        cbn [andb]; try reflexivity; try lia.
+      destruct (N.ltb_spec b (wl v1)); cbn [andb]; [|reflexivity].
+      unfold T. rewrite cat_bit by assumption.
+      assert (b <? n = true) as -> by (apply N.ltb_lt; assumption). rewrite HRv. reflexivity.
+Qed.
+
+Lemma resize_grow fixed w v k :
+  0 < w -> (fixed = false -> w = 64) -> canon_wv w v -> (fixed = true -> wl v + k <= w * lenw (wd v)) ->
+  exists v1, v_resize fixed w v (wl v + k) 0 = Ok v1 /\ canon_wv w v1 /\ wl v1 = wl v + k /\
+             (fixed = true -> lenw (wd v1) = lenw (wd v)) /\ raw w (wd v1) = raw w (wd v).
+Proof.
+  intros Hw Hf Hc Hcap.
+  destruct (v_resize_spec fixed w v (wl v + k) 0 Hw Hf Hc ltac:(lia) Hcap) as (v1 & E & Hc1 & Hl1 & Hn1 & _ & Hr1).
+  exists v1. split; [assumption|]. split; [assumption|]. split; [assumption|]. split; [assumption|].
+  rewrite Hr1. assert (wl v + k <? wl v = false) as -> by (apply N.ltb_ge; lia).
+  cbn [N.eqb]. apply N.add_0_r.
+Qed.
+
+Lemma f_append_spec w v sfx :
+  std_width w -> canon_wv w v -> Good sfx -> wl v + xlen sfx <= w * lenw (wd v) ->
+  exists r, f_append w v sfx = Ok r /\ canon_wv w r /\ lenw (wd r) = lenw (wd v) /\
+            wl r = wl v + xlen sfx /\ raw w (wd r) = raw w (wd v) + 2 ^ wl v * val sfx.
+Proof.
+  intros Hw Hc Hg Hcap. rewrite f_append_unfold. unfold f_resize.
+  destruct (resize_grow true w v (xlen sfx) (std_width_pos w Hw) ltac:(discriminate) Hc (fun _ => Hcap))
+    as (v1 & E & Hc1 & Hl1 & Hn1 & Hr1).
+  rewrite E. cbn [bind].
+  destruct (fa_core_spec w v1 (wl v) (xlen sfx) (raw w (wd v)) (val sfx) (wl v / 8) (wl v mod 8)
+              (x_int_len 8 sfx) (fun i => odefault (x_get_int 8 sfx i) 0)) as (r & Er & Hcr & Hlr & Hnr & Hrr);
+    try assumption.
+  - apply std_widths_ok; [assumption|]. unfold std_width. cbn [In]. auto.
+  - apply Hc.
+  - apply val_lt, Hg.
+  - apply x_gb_digits; [assumption|]. unfold std_width. cbn [In]. auto.
+  - apply (div_mod_eq (wl v) 8).
+  - apply mod_lt'. lia.
+  - unfold x_int_len, v_int_len. fold (xlen sfx). generalize (xlen sfx). intros m.
+    apply (ceil_div_spec m 8 eq_refl). apply N.le_refl.
+  - exists r. split; [assumption|]. split; [assumption|]. split; [rewrite Hnr; apply Hn1; reflexivity|].
+    split; assumption.
+Qed.
+
+(* `f_append_overflow` as assigned,
+     w * lenw (wd v) < wl v + xlen sfx -> f_append w v sfx = Panic,
+   is FALSE when v violates the length invariant and the suffix is empty: resize to the
+   unchanged length does nothing and no granule is stored, e.g.
+     f_append 8 (mkwv [] 1) (XD (mkwv [] 0)) = Ok (mkwv [] 1)      (8 * 0 < 1 + 0)
+     f_append 8 (mkwv [0] 9) (XD (mkwv [] 0)) = Ok (mkwv [0] 9)
+   (both checked with Eval vm_compute).  It holds as soon as the resize really grows the
+   vector, in particular for every v with wl v <= capacity (part of canon_wv). *)
+Lemma f_append_overflow_grow w v sfx :
+  0 < xlen sfx \/ wl v <= w * lenw (wd v) ->
+  w * lenw (wd v) < wl v + xlen sfx -> f_append w v sfx = Panic.
+Proof.
+  intros H1 H2. rewrite f_append_unfold. unfold f_resize.
+  rewrite f_resize_overflow_panics by lia. reflexivity.
+Qed.
+
+Lemma f_append_overflow_fixed w v sfx :
+  wl v <= w * lenw (wd v) ->
+  w * lenw (wd v) < wl v + xlen sfx -> f_append w v sfx = Panic.
+Proof. intros H. apply f_append_overflow_grow. right. assumption. Qed.
+
+(* same statement under the name asked for by PROOF_GUIDE.md *)
+Lemma f_append_overflow_partial w v sfx :
+  wl v <= w * lenw (wd v) ->
+  w * lenw (wd v) < wl v + xlen sfx -> f_append w v sfx = Panic.
+Proof. apply f_append_overflow_fixed. Qed.
+
+Lemma f_append_overflow_counterexample :
+  8 * lenw (wd (mkwv [] 1)) < wl (mkwv [] 1) + xlen (XD (mkwv [] 0)) /\
+  f_append 8 (mkwv [] 1) (XD (mkwv [] 0)) = Ok (mkwv [] 1).
+Proof. split; reflexivity. Qed.
+
+(* ------------------------------------------------------------------ Bvd::append *)
+
+(* state of u64 storage being spliced by direct word stores *)
+Definition dst (d0 : list N) (T lo hi : N) (d : list N) : Prop :=
+  words_ok 64 d /\ lenw d = lenw d0 /\ spl (raw 64 d0) (raw 64 d) T lo hi (64 * lenw d0).
+
+Lemma dst_init d0 T lo : words_ok 64 d0 -> dst d0 T lo lo d0.
+Proof. intros H. split; [assumption|]. split; [reflexivity|apply spl_init]. Qed.
+
+Lemma setw_bits d idx x b :
+  words_ok 64 d -> x < 2 ^ 64 ->
+  N.testbit (raw 64 (setw d idx x)) b =
+  if (64 * idx <=? b) && (b <? 64 * idx + 64) && (b <? 64 * lenw d)
+  then N.testbit x (b - 64 * idx) else N.testbit (raw 64 d) b.
+Proof.
+  intros Hd Hx. rewrite !(raw_testbit 64 eq_refl) by (try apply words_ok_setw; assumption).
+  rewrite getw_setw.
+  destruct (N.eqb_spec idx (b / 64)) as [A|A]; destruct (N.ltb_spec idx (lenw d)) as [B|B];
+    destruct (N.leb_spec (64 * idx) b) as [C|C]; destruct (N.ltb_spec b (64 * idx + 64)) as [D|D];
+    destruct (N.ltb_spec b (64 * lenw d)) as [E|E]; cbn [andb]; try reflexivity; try (exfalso; lia).
+  f_equal. lia.
+Qed.
+
+Lemma dst_step d0 T lo idx x d :
+  dst d0 T lo (64 * idx) d -> lo <= 64 * idx -> x < 2 ^ 64 ->
+  (forall t, t < 64 -> N.testbit x t = N.testbit T (64 * idx + t)) ->
+  dst d0 T lo (64 * idx + 64) (setw d idx x).
+Proof.
+  intros (Hd & Hn & Hs) Hlo Hx Hb.
+  split; [apply words_ok_setw; assumption|]. split; [rewrite lenw_setw; assumption|].
+  apply (spl_step _ (raw 64 d) _ T lo (64 * idx) _ 64 x); try assumption.
+  intros b. rewrite setw_bits, Hn by assumption. reflexivity.
+Qed.
+
+Lemma dst_fold d0 T lo base (idx val : N -> N) k :
+  lo <= 64 * base -> base + k <= lenw d0 ->
+  (forall i, i < k -> idx i = base + i) ->
+  (forall i, i < k -> val i < 2 ^ 64) ->
+  (forall i t, i < k -> t < 64 -> N.testbit (val i) t = N.testbit T (64 * (base + i) + t)) ->
+  forall d, dst d0 T lo (64 * base) d ->
+  exists d', fold_left (fun acc i => let! d := acc in seto d (idx i) (val i)) (nrange k) (Ok d) = Ok d' /\
+             dst d0 T lo (64 * (base + k)) d'.
+Proof.
+  intros Hlo. induction k as [|k IH] using N.peano_ind; intros Hk Hi Hv Hb d Hd.
+  - exists d. rewrite nrange_0, N.add_0_r. split; [reflexivity|exact Hd].
+  - rewrite <- N.add_1_r in *. rewrite nrange_succ, fold_left_app. cbn [fold_left].
+    destruct (IH ltac:(lia) ltac:(intros; apply Hi; lia) ltac:(intros; apply Hv; lia)
+                 ltac:(intros; apply Hb; lia) d Hd) as (d1 & -> & H1).
+    cbn [bind]. rewrite (Hi k) by lia.
+    rewrite seto_ok by (destruct H1 as (_ & -> & _); lia).
+    eexists. split; [reflexivity|].
+    replace (64 * (base + (k + 1))) with (64 * (base + k) + 64) by lia.
+    apply dst_step; [assumption|lia|apply Hv; lia|].
+    intros t Ht. apply Hb; lia.
+Qed.
+
+Definition da_core (v1 : wv) (slide offset nb : N) (gb : N -> N) : outcome wv :=
+  if offset =? 0 then
+    let! d := fold_left (fun acc i => let! d := acc in seto d (i + slide) (gb i)) (nrange nb) (Ok (wd v1)) in
+    Ok (mkwv d (wl v1))
+  else if 0 <? nb then
+    let! x0 := geto (wd v1) slide in
+    let! d0 := seto (wd v1) slide (N.lor x0 (shlw W64 (gb 0) offset)) in
+    let rev_offset := W64 - offset in
+    let! d1 := fold_left (fun acc i =>
+                            let! d := acc in
+                            seto d (i + slide) (N.lor (shrw (gb (i - 1)) rev_offset) (shlw W64 (gb i) offset)))
+                         (map (fun i => i + 1) (nrange (nb - 1))) (Ok d0) in
+    Ok (mkwv (upd_at d1 (nb + slide) (fun _ => shrw (gb (nb - 1)) rev_offset)) (wl v1))
+  else Ok v1.
+
+Lemma d_append_unfold v sfx :
+  d_append v sfx =
+  let! v1 := d_resize v (wl v + xlen sfx) 0 in
+  da_core v1 (wl v / W64) (wl v mod W64) (x_int_len W64 sfx) (fun i => odefault (x_get_int W64 sfx i) 0).
+Proof. reflexivity. Qed.
+
+Lemma da_core_spec v1 n m Rv S slide off nb gb :
+  canon_wv 64 v1 -> wl v1 = n + m -> raw 64 (wd v1) = Rv -> Rv < 2 ^ n -> S < 2 ^ m ->
+  (forall i, gb i = (S / 2 ^ (64 * i)) mod 2 ^ 64) -> n = 64 * slide + off -> off < 64 ->
+  m <= 64 * nb -> (nb = 0 \/ 64 * (nb - 1) < m) ->
+  exists r, da_core v1 slide off nb gb = Ok r /\ canon_wv 64 r /\ wl r = n + m /\
+            raw 64 (wd r) = Rv + 2 ^ n * S.
+Proof.
+  intros Hc Hl HRv HR HS Hgb Hn Hoff Hm Hnb'. unfold da_core, W64.
+  pose proof Hc as (Hd1 & Hcap & _). rewrite Hl in Hcap.
+  set (T := Rv + 2 ^ n * S).
+  pose proof (dst_init (wd v1) T (64 * slide) Hd1) as H0.
+  assert (forall d hi, dst (wd v1) T (64 * slide) hi d -> n + m <= hi ->
+            canon_wv 64 (mkwv d (wl v1)) /\ wl (mkwv d (wl v1)) = n + m /\ raw 64 (wd (mkwv d (wl v1))) = T) as Hfin.
+  { intros d hi (Hdr & Hnr & Hs) Hhi. cbn [wd wl].
+    assert (raw 64 d = T) as HT.
+    { apply (spl_final _ _ _ _ _ _ Hs). intros b Hb. rewrite HRv.
+      apply (cat_outside Rv S n m (64 * slide) hi (64 * lenw (wd v1))); try assumption; lia. }
+    split; [|split; assumption].
+    split; [assumption|]. cbn [wd wl]. split; [lia|].
+    rewrite HT, Hl. unfold T. apply concat_lt; assumption. }
+  destruct (N.eqb_spec off 0) as [Ho|Ho].
+  - (* word aligned *)
+    destruct (dst_fold (wd v1) T (64 * slide) slide (fun i => i + slide) gb nb) with (d := wd v1)
+      as (d' & E & Hd'); try assumption.
+    + lia.
+    + lia.
+    + intros; lia.
+    + intros i _. apply (gb_lt 64 S gb Hgb).
+    + intros i t _ Ht. unfold T. rewrite cat_bit, (gb_bit 64 S gb Hgb) by assumption.
+      assert (t <? 64 = true) as -> by (apply N.ltb_lt; assumption).
+      assert (64 * (slide + i) + t <? n = false) as -> by (apply N.ltb_ge; lia).
+      cbn [andb]. f_equal. lia.
+    + cbv beta in E. rewrite E. cbn [bind]. eexists. split; [reflexivity|].
+      apply (Hfin _ (64 * (slide + nb))); [assumption|lia].
+  - destruct (N.ltb_spec 0 nb) as [Hnb|Hnb].
+    + assert (slide + nb <= lenw (wd v1)) as Hin by lia.
+      rewrite geto_ok by lia. cbn [bind]. rewrite seto_ok by lia. cbn [bind]. cbv zeta.
+      rewrite fold_left_map'.
+      (* the first word *)
+      assert (dst (wd v1) T (64 * slide) (64 * (slide + 1))
+                (setw (wd v1) slide (N.lor (getw (wd v1) slide) (shlw 64 (gb 0) off)))) as H1.
+      { replace (64 * (slide + 1)) with (64 * slide + 64) by lia.
+        rewrite (getw_raw 64 eq_refl (wd v1) slide Hd1), HRv.
+        apply dst_step; [assumption|lia| |].
+        - apply Shift.lor_lt; [apply N.mod_lt, pow2_ne0|apply shlw_lt].
+        - intros t Ht. apply (first_bit 64 S gb Rv n slide off t); assumption. }
+      (* the middle words *)
+      destruct (dst_fold (wd v1) T (64 * slide) (slide + 1) (fun i => i + 1 + slide)
+                  (fun i => N.lor (shrw (gb (i + 1 - 1)) (64 - off)) (shlw 64 (gb (i + 1)) off)) (nb - 1))
+        with (d := setw (wd v1) slide (N.lor (getw (wd v1) slide) (shlw 64 (gb 0) off)))
+        as (d' & E & Hd'); try assumption.
+      * lia.
+      * lia.
+      * intros; lia.
+      * intros i _. rewrite N.add_sub. apply (comb_lt 64 S gb Hgb).
+      * intros i t _ Ht. rewrite N.add_sub, (comb_bit 64 S gb Hgb) by lia.
+        unfold T. rewrite cat_bit by assumption.
+        assert (64 * (slide + 1 + i) + t <? n = false) as -> by (apply N.ltb_ge; lia).
+        f_equal. lia.
+      * cbv beta in E. rewrite E. cbn [bind]. eexists. split; [reflexivity|].
+        apply (Hfin _ (64 * (nb + slide) + 64)); [|lia].
+        (* the last word, stored only if it exists *)
+        replace (64 * (slide + 1 + (nb - 1))) with (64 * (nb + slide)) in Hd' by lia.
+        assert (shrw (gb (nb - 1)) (64 - off) < 2 ^ 64) as Hlt by apply shrw_lt, (gb_lt 64 S gb Hgb).
+        assert (forall t, t < 64 -> N.testbit (shrw (gb (nb - 1)) (64 - off)) t = N.testbit T (64 * (nb + slide) + t)) as Hlb.
+        { intros t Ht. replace nb with (nb - 1 + 1) at 2 by lia.
+          rewrite (last_bit 64 S gb Hgb (nb - 1) off m) by (try assumption; lia).
+          unfold T. rewrite cat_bit by assumption.
+          assert (64 * (nb - 1 + 1 + slide) + t <? n = false) as -> by (apply N.ltb_ge; lia).
+          f_equal. lia. }
+        unfold upd_at. destruct (N.ltb_spec (nb + slide) (lenw d')) as [Hi|Hi].
+        -- apply dst_step; [assumption|lia|assumption|assumption].
+        -- destruct Hd' as (A & B & C). split; [assumption|]. split; [assumption|].
+           intros b. rewrite (C b).
+           destruct (N.leb_spec (64 * slide) b); destruct (N.ltb_spec b (64 * (nb + slide)));
+             destruct (N.ltb_spec b (64 * (nb + slide) + 64)); destruct (N.ltb_spec b (64 * lenw (wd v1)));
+             cbn [andb]; try reflexivity; exfalso; lia.
+    + (* empty operand *)
+      exists v1. split; [reflexivity|]. assert (m = 0) as -> by lia.
+      split; [assumption|]. split; [assumption|].
+      assert (S = 0) as -> by (rewrite N.pow_0_r in HS; lia). lia.
+Qed.
+
+Lemma d_append_spec v sfx :
+  canon_wv 64 v -> Good sfx ->
+  exists r, d_append v sfx = Ok r /\ canon_wv 64 r /\
+            wl r = wl v + xlen sfx /\ raw 64 (wd r) = raw 64 (wd v) + 2 ^ wl v * val sfx.
+Proof.
+  intros Hc Hg. rewrite d_append_unfold. unfold d_resize, W64.
+  destruct (resize_grow false 64 v (xlen sfx) eq_refl ltac:(reflexivity) Hc ltac:(discriminate))
+    as (v1 & E & Hc1 & Hl1 & _ & Hr1).
+  rewrite E. cbn [bind].
+  apply (da_core_spec v1 (wl v) (xlen sfx) (raw 64 (wd v)) (val sfx)); try assumption.
+  - apply Hc.
+  - apply val_lt, Hg.
+  - apply x_gb_digits; [assumption|apply std_width_64].
+  - apply (div_mod_eq (wl v) 64).
+  - apply mod_lt'. lia.
+  - unfold x_int_len, v_int_len. fold (xlen sfx). generalize (xlen sfx). intros m.
+    apply (ceil_div_spec m 64 eq_refl). apply N.le_refl.
+  - unfold x_int_len, v_int_len. fold (xlen sfx). generalize (xlen sfx). intros m. lia.
+Qed.
+
+(* ------------------------------------------------------------------ promotion of the inline variant *)
+
+Lemma omap_list_ok' {A B} (f : A -> outcome B) (g : A -> B) l :
+  (forall a, In a l -> f a = Ok (g a)) -> omap_list f l = Ok (map g l).
+Proof.
+  induction l as [|a r IH]; intros H; [reflexivity|].
+  cbn [omap_list map]. rewrite (H a) by (left; reflexivity). cbn [bind].
+  rewrite IH by (intros; apply H; right; assumption). reflexivity.
+Qed.
+
+Lemma getw_map_nrange' (f : N -> N) k i : i < k -> getw (map f (nrange k)) i = f i.
+Proof.
+  intros H. unfold getw.
+  rewrite (nth_indep _ 0 (f 0)) by (rewrite map_length, nrange_length; lia).
+  rewrite map_nth. f_equal. apply getw_nrange. assumption.
+Qed.
+
+Lemma lenw_map_nrange' (f : N -> N) k : lenw (map f (nrange k)) = k.
+Proof. unfold lenw. rewrite map_length, nrange_length. lia. Qed.
+
+(* Bvd::from(&Bvf<u64,N>): the used words are copied *)
+Lemma d_from_f64 v :
+  canon_wv 64 v ->
+  exists r, d_from_f 64 v = Ok r /\ canon_wv 64 r /\ wl r = wl v /\ raw 64 (wd r) = raw 64 (wd v).
+Proof.
+  intros Hc. pose proof Hc as (Hd & Hcap & Hr). unfold d_from_f, W64.
+  set (g := fun i => (raw 64 (wd v) / 2 ^ (64 * i)) mod 2 ^ 64).
+  set (nb := v_int_len 64 v).
+  assert (wl v <= 64 * nb) as Hnb.
+  { unfold nb, v_int_len. apply (ceil_div_spec (wl v) 64 eq_refl). apply N.le_refl. }
+  assert (forall i, i < nb -> i * 64 < wl v) as Hin.
+  { unfold nb, v_int_len. generalize (wl v). intros n i Hi. lia. }
+  rewrite (omap_list_ok' _ g).
+  2:{ intros i Hi. apply In_nrange in Hi.
+      rewrite v_get_int_spec by (try assumption; apply std_widths_ok; apply std_width_64).
+      assert (i * 64 <? wl v = true) as -> by (apply N.ltb_lt; apply Hin; assumption). reflexivity. }
+  cbn [bind]. eexists. split; [reflexivity|]. cbn [wd wl].
+  assert (words_ok 64 (map g (nrange nb))) as Hd'.
+  { apply words_ok_getw. intros i Hi. rewrite lenw_map_nrange' in Hi. rewrite getw_map_nrange' by assumption.
+    apply N.mod_lt, pow2_ne0. }
+  assert (raw 64 (map g (nrange nb)) = raw 64 (wd v)) as HR.
+  { apply N.bits_inj. intro b. rewrite (raw_testbit 64 eq_refl _ b Hd').
+    destruct (N.ltb_spec (b / 64) nb) as [A|A].
+    - rewrite getw_map_nrange' by assumption. unfold g. rewrite mod_pow2_testbit, div_pow2_testbit.
+      assert (b mod 64 <? 64 = true) as -> by (apply N.ltb_lt; lia). cbn [andb]. f_equal. lia.
+    - rewrite getw_high by (rewrite lenw_map_nrange'; assumption). rewrite N.bits_0.
+      symmetry. apply (testbit_high _ (wl v)); [assumption|lia]. }
+  split; [|split; [reflexivity|assumption]].
+  split; [assumption|]. cbn [wd wl]. rewrite lenw_map_nrange', HR. split; assumption.
+Qed.
+
+(* ------------------------------------------------------------------ value level: append *)
+
+Lemma abs_concat_eq lo hi x :
+  Canon lo -> Canon hi -> Canon x -> xlen x = xlen lo + xlen hi -> val x = val lo + 2 ^ xlen lo * val hi ->
+  abs x = s_concat (abs lo) (abs hi).
+Proof.
+  intros H1 H2 H3 Hl Hv. rewrite !abs_Canon by assumption. unfold s_concat. cbn [blen bval].
+  rewrite N.shiftl_mul_pow2, Hl, Hv. f_equal. lia.
+Qed.
+
+Lemma std_width_XF w v : Good (XF w v) -> std_width w /\ canon_wv w v /\ 0 < w /\ w mod 8 = 0.
+Proof. intros [[Hc [H0 H8]] Hs]. split; [exact Hs|]. split; [exact Hc|]. split; assumption. Qed.
+
+Theorem x_append_spec a sfx : Good a -> Good sfx ->
+  (fits (kind_of a) (xlen a + xlen sfx) = false -> x_append a sfx = Panic) /\
+  (fits (kind_of a) (xlen a + xlen sfx) = true ->
+   exists r, x_append a sfx = Ok r /\ Good r /\ kind_of r = kind_of a /\ abs r = s_append (abs a) (abs sfx)).
+Proof.
+  intros Ha Hs. pose proof Ha as [Hca Hwa]. pose proof Hs as [Hcs Hws].
+  destruct a as [w v|v|[|] v]; cbn [kind_of x_append].
+  - (* Bvf *)
+    change (xlen (XF w v)) with (wl v).
+    destruct (std_width_XF w v Ha) as (Hw & Hc & H0 & H8).
+    unfold fits. cbn [kind_fixed kind_cap negb orb]. split; intros Hf.
+    + apply N.leb_gt in Hf. rewrite f_append_overflow_fixed; [reflexivity|apply Hc|exact Hf].
+    + apply N.leb_le in Hf.
+      destruct (f_append_spec w v sfx Hw Hc Hs Hf) as (r & -> & Hcr & Hnr & Hlr & Hrr). cbn [bind].
+      assert (Canon (XF w r)) as HC by (apply Canon_XF; assumption).
+      eexists. split; [reflexivity|]. split; [split; [exact HC|exact Hw]|].
+      split; [cbn [kind_of]; rewrite Hnr; reflexivity|].
+      apply abs_concat_eq; try assumption.
+  - (* Bvd *)
+    split; [intros Hf; discriminate Hf|intros _].
+    destruct (d_append_spec v sfx (Canon_wv _ Hca) Hs) as (r & -> & Hcr & Hlr & Hrr). cbn [bind].
+    assert (Canon (XD r)) as HC by (apply Canon_XD; assumption).
+    eexists. split; [reflexivity|]. split; [apply Good_of_Canon_D; exact HC|].
+    split; [reflexivity|]. apply abs_concat_eq; try assumption.
+  - (* Bv, inline *)
+    split; [intros Hf; discriminate Hf|intros _].
+    pose proof (Canon_wv _ Hca) as Hc. cbn [xw xv] in Hc. destruct Hca as [_ Hn2].
+    unfold BVP_CAP, BVP_W. destruct (N.leb_spec (wl v + xlen sfx) 128) as [Hle|Hgt].
+    + destruct (f_append_spec 64 v sfx std_width_64 Hc Hs) as (r & -> & Hcr & Hnr & Hlr & Hrr).
+      { rewrite Hn2. lia. }
+      cbn [bind].
+      assert (Canon (XA true r)) as HC by (apply Canon_XA_fixed; [assumption|congruence]).
+      eexists. split; [reflexivity|]. split; [apply Good_of_Canon_A; exact HC|].
+      split; [reflexivity|]. apply abs_concat_eq; try assumption. apply Ha.
+    + destruct (d_from_f64 v Hc) as (d & -> & Hcd & Hld & Hrd). cbn [bind].
+      destruct (d_append_spec d sfx Hcd Hs) as (r & -> & Hcr & Hlr & Hrr). cbn [bind].
+      assert (Canon (XA false r)) as HC by (apply Canon_XA_dyn; assumption).
+      eexists. split; [reflexivity|]. split; [apply Good_of_Canon_A; exact HC|].
+      split; [reflexivity|]. apply abs_concat_eq; try assumption; [apply Ha| |].
+      * unfold xlen in *. cbn [xv]. congruence.
+      * unfold val, xlen, xdata. cbn [xv xw]. rewrite Hrr, Hrd, Hld. reflexivity.
+  - (* Bv, heap *)
+    split; [intros Hf; discriminate Hf|intros _].
+    destruct (d_append_spec v sfx (Canon_wv _ Hca) Hs) as (r & -> & Hcr & Hlr & Hrr). cbn [bind].
+    assert (Canon (XA false r)) as HC by (apply Canon_XA_dyn; assumption).
+    eexists. split; [reflexivity|]. split; [apply Good_of_Canon_A; exact HC|].
+    split; [reflexivity|]. apply abs_concat_eq; try assumption.
+Qed.
+
+(* ------------------------------------------------------------------ prepend: shared facts *)
+
+Lemma shift_amount_id k : k < 2 ^ 62 -> shift_amount k = k.
+Proof.
+  intros Hk. unfold shift_amount. rewrite pow2_eq.
+  assert (2 ^ 62 < 2 ^ 64) by (apply pow2_lt; lia).
+  destruct (N.ltb_spec k (2 ^ 64)); [reflexivity|lia].
+Qed.
+
+(* the target of a prepend: operand below position m, old value above *)
+Lemma pre_bit P Rv m b :
+  P < 2 ^ m -> N.testbit (P + 2 ^ m * Rv) b = if b <? m then N.testbit P b else N.testbit Rv (b - m).
+Proof. apply concat_testbit. Qed.
+
+Lemma pre_high P Rv m b :
+  P < 2 ^ m -> m <= b -> N.testbit (Rv * 2 ^ m) b = N.testbit (P + 2 ^ m * Rv) b.
+Proof.
+  intros HP Hb. rewrite pre_bit, mul_pow2_testbit by assumption.
+  assert (b <? m = false) as -> by (apply N.ltb_ge; assumption).
+  assert (m <=? b = true) as -> by (apply N.leb_le; assumption). reflexivity.
+Qed.
+
+(* a granule entirely inside the operand *)
+Lemma pre_low_bit j P Rv m i t :
+  P < 2 ^ m -> t < j -> j * i + j <= m ->
+  N.testbit ((P / 2 ^ (j * i)) mod 2 ^ j) t = N.testbit (P + 2 ^ m * Rv) (j * i + t).
+Proof.
+  intros HP Ht Hi. rewrite pre_bit, mod_pow2_testbit, div_pow2_testbit by assumption.
+  assert (t <? j = true) as -> by (apply N.ltb_lt; assumption).
+  assert (j * i + t <? m = true) as -> by (apply N.ltb_lt; lia).
+  cbn [andb]. f_equal. lia.
+Qed.
+
+(* the last granule: the shifted old value OR the top of the operand *)
+Lemma pre_last_bit j P Rv m R3 last t :
+  P < 2 ^ m -> t < j ->
+  (forall b, j * last <= b -> N.testbit R3 b = N.testbit (Rv * 2 ^ m) b) ->
+  N.testbit (N.lor ((R3 / 2 ^ (j * last)) mod 2 ^ j) ((P / 2 ^ (j * last)) mod 2 ^ j)) t
+  = N.testbit (P + 2 ^ m * Rv) (j * last + t).
+Proof.
+  intros HP Ht H3. rewrite pre_bit, N.lor_spec, !mod_pow2_testbit, !div_pow2_testbit by assumption.
+  assert (t <? j = true) as -> by (apply N.ltb_lt; assumption). cbn [andb].
+  rewrite H3 by lia. rewrite mul_pow2_testbit.
+  replace (t + j * last) with (j * last + t) by lia.
+  destruct (N.ltb_spec (j * last + t) m) as [A|A].
+  - assert (m <=? j * last + t = false) as -> by (apply N.leb_gt; assumption). reflexivity.
+  - assert (m <=? j * last + t = true) as -> by (apply N.leb_le; assumption).
+    rewrite (testbit_high P m) by assumption. cbn [andb]. apply orb_false_r.
+Qed.
+
+(* raw value after resize and shift *)
+Lemma shl_raw w v1 v2 n m Rv :
+  canon_wv w v1 -> wl v1 = n + m -> raw w (wd v1) = Rv -> Rv < 2 ^ n ->
+  (forall i, N.testbit (raw w (wd v2)) i = (m <=? i) && (i <? wl v1) && N.testbit (raw w (wd v1)) (i - m)) ->
+  raw w (wd v2) = Rv * 2 ^ m.
+Proof.
+  intros Hc Hl HRv HR Hb. apply N.bits_inj. intro i. rewrite Hb, mul_pow2_testbit, HRv, Hl.
+  destruct (N.leb_spec m i) as [A|A]; cbn [andb]; [|reflexivity].
+  destruct (N.ltb_spec i (n + m)) as [B|B]; cbn [andb]; [reflexivity|].
+  symmetry. apply (testbit_high Rv n); [assumption|lia].
+Qed.
+
+(* ------------------------------------------------------------------ Bvf::prepend *)
+
+Definition fp_core (w : N) (v2 : wv) (last : N) (gi : N -> option N) : outcome wv :=
+  let! v3 := fold_left (fun acc i => let! a := acc in
+                                     let! b := unwrap (gi i) in
+                                     Ok (v_set_int w 8 a i b))
+                       (nrange last) (Ok v2) in
+  let! a := unwrap (v_get_int w 8 v3 last) in
+  let! b := unwrap (gi last) in
+  Ok (v_set_int w 8 v3 last (N.lor a b)).
+
+Lemma f_prepend_unfold w v pfx :
+  f_prepend w v pfx =
+  if xlen pfx =? 0 then Ok v
+  else let! v1 := f_resize w v (wl v + xlen pfx) 0 in
+       let! v2 := v_shl_assign w v1 (xlen pfx) in
+       fp_core w v2 (x_int_len 8 pfx - 1) (x_get_int 8 pfx).
+Proof. reflexivity. Qed.
+
+Lemma fp_core_spec w v2 n m Rv P last gi :
+  widths_ok w 8 -> canon_wv w v2 -> wl v2 = n + m -> raw w (wd v2) = Rv * 2 ^ m -> P < 2 ^ m ->
+  (forall i, i * 8 < m -> gi i = Some ((P / 2 ^ (8 * i)) mod 2 ^ 8)) ->
+  8 * last < m -> m <= 8 * last + 8 ->
+  exists r, fp_core w v2 last gi = Ok r /\ canon_wv w r /\ wl r = n + m /\
+            lenw (wd r) = lenw (wd v2) /\ raw w (wd r) = P + 2 ^ m * Rv.
+Proof.
+  intros Hw8 Hc Hl HR2 HP Hgi Hlo Hhi. unfold fp_core.
+  set (T := P + 2 ^ m * Rv). set (g := fun i => (P / 2 ^ (8 * i)) mod 2 ^ 8).
+  rewrite (fold_left_ext_in _ (fun acc i => let! a := acc in Ok (v_set_int w 8 a i (g i)))).
+  2:{ intros acc i Hi. apply In_nrange in Hi. rewrite Hgi by lia. destruct acc; reflexivity. }
+  rewrite fold_left_ok. cbn [bind].
+  set (v3 := fold_left _ _ _).
+  assert (fst' w v2 T 0 (8 * last) v3) as H3.
+  { replace (8 * last) with (8 * (0 + last)) by lia.
+    apply (fst_fold w 8 v2 T 0 0 (fun i => i) g last); try assumption.
+    - lia.
+    - intros; lia.
+    - intros i _. apply N.mod_lt, pow2_ne0.
+    - intros i t Hi Ht. rewrite N.add_0_l. apply pre_low_bit; [assumption|assumption|lia].
+    - rewrite N.mul_0_r. apply fst_init. assumption. }
+  pose proof H3 as (Hc3 & Hl3 & Hn3 & Hs3).
+  rewrite v_get_int_spec by assumption.
+  assert (last * 8 <? wl v3 = true) as -> by (apply N.ltb_lt; lia).
+  rewrite Hgi by lia. cbn [unwrap bind].
+  eexists. split; [reflexivity|].
+  assert (fst' w v2 T 0 (8 * last + 8) (v_set_int w 8 v3 last
+            (N.lor ((raw w (wd v3) / 2 ^ (8 * last)) mod 2 ^ 8) ((P / 2 ^ (8 * last)) mod 2 ^ 8)))) as H4.
+  { apply fst_step; try assumption; [lia| |].
+    - apply Shift.lor_lt; apply N.mod_lt, pow2_ne0.
+    - intros t Ht. apply pre_last_bit; [assumption|assumption|].
+      intros b Hb. rewrite (Hs3 b), HR2.
+      assert (b <? 8 * last = false) as -> by (apply N.ltb_ge; assumption).
+      rewrite andb_false_r. reflexivity. }
+  destruct H4 as (Hc4 & Hl4 & Hn4 & Hs4).
+  split; [assumption|]. split; [congruence|]. split; [assumption|].
+  apply (spl_final _ _ _ _ _ _ Hs4). intros b Hb. rewrite HR2. apply pre_high; [assumption|lia].
+Qed.
+
+Lemma x_int_len_last j pfx :
+  0 < j -> 0 < xlen pfx ->
+  j * (x_int_len j pfx - 1) < xlen pfx /\ xlen pfx <= j * (x_int_len j pfx - 1) + j.
+Proof.
+  intros Hj Hm. unfold x_int_len, v_int_len. fold (xlen pfx). generalize dependent (xlen pfx). intros m Hm.
+  pose proof (proj1 (ceil_div_spec m j Hj ((m + j - 1) / j)) (N.le_refl _)) as H1.
+  assert (~ (m + j - 1) / j <= (m + j - 1) / j - 1 \/ (m + j - 1) / j = 0) as H2 by lia.
+  destruct H2 as [H2|H2].
+  - rewrite (ceil_div_spec m j Hj) in H2.
+    set (q := (m + j - 1) / j) in *. clearbody q. split; [lia|].
+    assert (0 < q) by (destruct q; [rewrite N.mul_0_r in H1; lia|lia]).
+    replace (j * (q - 1) + j) with (j * q); [assumption|]. replace q with (q - 1 + 1) at 1 by lia. lia.
+  - rewrite H2, N.mul_0_r in H1. lia.
+Qed.
+
+Lemma f_prepend_spec w v pfx :
+  std_width w -> canon_wv w v -> Good pfx -> wl v + xlen pfx <= w * lenw (wd v) -> wl v + xlen pfx < 2 ^ 62 ->
+  exists r, f_prepend w v pfx = Ok r /\ canon_wv w r /\ lenw (wd r) = lenw (wd v) /\
+            wl r = wl v + xlen pfx /\ raw w (wd r) = val pfx + 2 ^ xlen pfx * raw w (wd v).
+Proof.
+  intros Hw Hc Hg Hcap H62. rewrite f_prepend_unfold. pose proof (val_lt pfx (proj1 Hg)) as HP.
+  assert (std_width 8) as Hs8 by (unfold std_width; cbn [In]; auto).
+  destruct (N.eqb_spec (xlen pfx) 0) as [Hm|Hm].
+  - exists v. rewrite Hm in *. split; [reflexivity|]. split; [assumption|]. split; [reflexivity|].
+    split; [lia|]. rewrite N.pow_0_r in *. lia.
+  - unfold f_resize.
+    destruct (resize_grow true w v (xlen pfx) (std_width_pos w Hw) ltac:(discriminate) Hc (fun _ => Hcap))
+      as (v1 & E & Hc1 & Hl1 & Hn1 & Hr1).
+    rewrite E. cbn [bind].
+    destruct (shl_assign_spec w v1 (xlen pfx) (std_width_pos w Hw) Hc1) as (v2 & E2 & Hc2 & Hl2 & Hn2 & Hb2).
+    rewrite E2. cbn [bind]. rewrite shift_amount_id in Hb2 by lia.
+    pose proof (shl_raw w v1 v2 (wl v) (xlen pfx) (raw w (wd v)) Hc1 Hl1 Hr1 (proj2 (proj2 Hc)) Hb2) as HR2.
+    destruct (x_int_len_last 8 pfx eq_refl ltac:(lia)) as [Hlo Hhi].
+    destruct (fp_core_spec w v2 (wl v) (xlen pfx) (raw w (wd v)) (val pfx) (x_int_len 8 pfx - 1) (x_get_int 8 pfx))
+      as (r & Er & Hcr & Hlr & Hnr & Hrr); try assumption.
+    + apply std_widths_ok; assumption.
+    + congruence.
+    + intros i Hi. apply x_get_int_some; assumption.
+    + exists r. split; [assumption|]. split; [assumption|]. split; [rewrite Hnr, Hn2; apply Hn1; reflexivity|].
+      split; assumption.
+Qed.
+
+Lemma f_prepend_overflow w v pfx :
+  0 < xlen pfx -> w * lenw (wd v) < wl v + xlen pfx -> f_prepend w v pfx = Panic.
+Proof.
+  intros H1 H2. rewrite f_prepend_unfold.
+  assert (xlen pfx =? 0 = false) as -> by (apply N.eqb_neq; lia).
+  unfold f_resize. rewrite f_resize_overflow_panics by lia. reflexivity.
+Qed.
+
+(* ------------------------------------------------------------------ Bvd::prepend *)
+
+Definition dp_core (v2 : wv) (last : N) (gi : N -> option N) : outcome wv :=
+  let! d3 := fold_left (fun acc i => let! d := acc in
+                                     let! b := unwrap (gi i) in
+                                     seto d i b)
+                       (nrange last) (Ok (wd v2)) in
+  let! b := unwrap (gi last) in
+  Ok (mkwv (upd_at d3 last (fun a => N.lor a b)) (wl v2)).
+
+Lemma d_prepend_unfold v pfx :
+  d_prepend v pfx =
+  if xlen pfx =? 0 then Ok v
+  else let! v1 := d_resize v (wl v + xlen pfx) 0 in
+       let! v2 := v_shl_assign W64 v1 (xlen pfx) in
+       dp_core v2 (x_int_len W64 pfx - 1) (x_get_int W64 pfx).
+Proof. reflexivity. Qed.
+
+Lemma dp_core_spec v2 n m Rv P last gi :
+  canon_wv 64 v2 -> wl v2 = n + m -> raw 64 (wd v2) = Rv * 2 ^ m -> Rv < 2 ^ n -> P < 2 ^ m ->
+  (forall i, i * 64 < m -> gi i = Some ((P / 2 ^ (64 * i)) mod 2 ^ 64)) ->
+  64 * last < m -> m <= 64 * last + 64 ->
+  exists r, dp_core v2 last gi = Ok r /\ canon_wv 64 r /\ wl r = n + m /\ raw 64 (wd r) = P + 2 ^ m * Rv.
+Proof.
+  intros Hc Hl HR2 HRv HP Hgi Hlo Hhi. unfold dp_core.
+  pose proof Hc as (Hd2 & Hcap & _). rewrite Hl in Hcap.
+  set (T := P + 2 ^ m * Rv). set (g := fun i => (P / 2 ^ (64 * i)) mod 2 ^ 64).
+  rewrite (fold_left_ext_in _ (fun acc i => let! d := acc in seto d i (g i))).
+  2:{ intros acc i Hi. apply In_nrange in Hi. rewrite Hgi by lia. destruct acc; reflexivity. }
+  destruct (dst_fold (wd v2) T 0 0 (fun i => i) g last) with (d := wd v2) as (d3 & E & H3).
+  - lia.
+  - lia.
+  - intros; lia.
+  - intros i _. apply N.mod_lt, pow2_ne0.
+  - intros i t Hi Ht. rewrite N.add_0_l. apply pre_low_bit; [assumption|assumption|lia].
+  - rewrite N.mul_0_r. apply dst_init. assumption.
+  - cbv beta in E. rewrite E. cbn [bind]. rewrite Hgi by lia. cbn [unwrap bind].
+    eexists. split; [reflexivity|]. cbn [wd wl].
+    rewrite N.add_0_l in H3. pose proof H3 as (Hd3 & Hn3 & Hs3).
+    unfold upd_at. assert (last <? lenw d3 = true) as -> by (apply N.ltb_lt; lia).
+    assert (dst (wd v2) T 0 (64 * last + 64) (setw d3 last (N.lor (getw d3 last) ((P / 2 ^ (64 * last)) mod 2 ^ 64)))) as H4.
+    { rewrite (getw_raw 64 eq_refl d3 last Hd3).
+      apply dst_step; try assumption; [lia| |].
+      - apply Shift.lor_lt; apply N.mod_lt, pow2_ne0.
+      - intros t Ht. apply pre_last_bit; [assumption|assumption|].
+        intros b Hb. rewrite (Hs3 b), HR2.
+        assert (b <? 64 * last = false) as -> by (apply N.ltb_ge; assumption).
+        rewrite andb_false_r. reflexivity. }
+    destruct H4 as (Hd4 & Hn4 & Hs4).
+    assert (raw 64 (setw d3 last (N.lor (getw d3 last) ((P / 2 ^ (64 * last)) mod 2 ^ 64))) = T) as HT.
+    { apply (spl_final _ _ _ _ _ _ Hs4). intros b Hb. rewrite HR2. apply pre_high; [assumption|lia]. }
+    split; [|split; assumption].
+    split; [assumption|]. cbn [wd wl]. split; [lia|].
+    rewrite HT, Hl. unfold T. rewrite (N.add_comm n m). apply concat_lt; assumption.
+Qed.
+
+Lemma d_prepend_spec v pfx :
+  canon_wv 64 v -> Good pfx -> wl v + xlen pfx < 2 ^ 62 ->
+  exists r, d_prepend v pfx = Ok r /\ canon_wv 64 r /\
+            wl r = wl v + xlen pfx /\ raw 64 (wd r) = val pfx + 2 ^ xlen pfx * raw 64 (wd v).
+Proof.
+  intros Hc Hg H62. rewrite d_prepend_unfold. pose proof (val_lt pfx (proj1 Hg)) as HP.
+  destruct (N.eqb_spec (xlen pfx) 0) as [Hm|Hm].
+  - exists v. rewrite Hm in *. split; [reflexivity|]. split; [assumption|].
+    split; [lia|]. rewrite N.pow_0_r in *. lia.
+  - unfold d_resize, W64.
+    destruct (resize_grow false 64 v (xlen pfx) eq_refl ltac:(reflexivity) Hc ltac:(discriminate))
+      as (v1 & E & Hc1 & Hl1 & _ & Hr1).
+    rewrite E. cbn [bind].
+    destruct (shl_assign_spec 64 v1 (xlen pfx) eq_refl Hc1) as (v2 & E2 & Hc2 & Hl2 & Hn2 & Hb2).
+    rewrite E2. cbn [bind]. rewrite shift_amount_id in Hb2 by lia.
+    pose proof (shl_raw 64 v1 v2 (wl v) (xlen pfx) (raw 64 (wd v)) Hc1 Hl1 Hr1 (proj2 (proj2 Hc)) Hb2) as HR2.
+    destruct (x_int_len_last 64 pfx eq_refl ltac:(lia)) as [Hlo Hhi].
+    apply (dp_core_spec v2 (wl v) (xlen pfx) (raw 64 (wd v)) (val pfx)); try assumption.
+    + congruence.
+    + apply Hc.
+    + intros i Hi. apply x_get_int_some; [assumption|apply std_width_64|assumption].
+Qed.
+
+(* ------------------------------------------------------------------ value level: prepend *)
+
+Lemma abs_concat_eq' lo hi x :
+  Canon lo -> Canon hi -> Canon x -> xlen x = xlen hi + xlen lo -> val x = val lo + 2 ^ xlen lo * val hi ->
+  abs x = s_concat (abs lo) (abs hi).
+Proof. intros H1 H2 H3 Hl Hv. apply abs_concat_eq; try assumption. lia. Qed.
+
+Theorem x_prepend_spec a pfx : Good a -> Good pfx -> xlen a + xlen pfx < 2 ^ 62 ->
+  (fits (kind_of a) (xlen a + xlen pfx) = false -> x_prepend a pfx = Panic) /\
+  (fits (kind_of a) (xlen a + xlen pfx) = true ->
+   exists r, x_prepend a pfx = Ok r /\ Good r /\ kind_of r = kind_of a /\ abs r = s_prepend (abs a) (abs pfx)).
+Proof.
+  intros Ha Hs H62. pose proof Ha as [Hca Hwa]. pose proof Hs as [Hcs Hws]. unfold s_prepend.
+  destruct a as [w v|v|[|] v]; cbn [kind_of x_prepend].
+  - (* Bvf *)
+    change (xlen (XF w v)) with (wl v) in *.
+    destruct (std_width_XF w v Ha) as (Hw & Hc & H0 & H8).
+    unfold fits. cbn [kind_fixed kind_cap negb orb]. split; intros Hf.
+    + apply N.leb_gt in Hf. rewrite f_prepend_overflow; [reflexivity| |exact Hf].
+      destruct Hc as (_ & Hcap & _). lia.
+    + apply N.leb_le in Hf.
+      destruct (f_prepend_spec w v pfx Hw Hc Hs Hf H62) as (r & -> & Hcr & Hnr & Hlr & Hrr). cbn [bind].
+      assert (Canon (XF w r)) as HC by (apply Canon_XF; assumption).
+      eexists. split; [reflexivity|]. split; [split; [exact HC|exact Hw]|].
+      split; [cbn [kind_of]; rewrite Hnr; reflexivity|].
+      apply abs_concat_eq'; try assumption.
+  - (* Bvd *)
+    change (xlen (XD v)) with (wl v) in *.
+    split; [intros Hf; discriminate Hf|intros _].
+    destruct (d_prepend_spec v pfx (Canon_wv _ Hca) Hs H62) as (r & -> & Hcr & Hlr & Hrr). cbn [bind].
+    assert (Canon (XD r)) as HC by (apply Canon_XD; assumption).
+    eexists. split; [reflexivity|]. split; [apply Good_of_Canon_D; exact HC|].
+    split; [reflexivity|]. apply abs_concat_eq'; try assumption.
+  - (* Bv, inline *)
+    change (xlen (XA true v)) with (wl v) in *.
+    split; [intros Hf; discriminate Hf|intros _].
+    pose proof (Canon_wv _ Hca) as Hc. cbn [xw xv] in Hc. destruct Hca as [_ Hn2].
+    unfold BVP_CAP, BVP_W. destruct (N.leb_spec (wl v + xlen pfx) 128) as [Hle|Hgt].
+    + destruct (f_prepend_spec 64 v pfx std_width_64 Hc Hs) as (r & -> & Hcr & Hnr & Hlr & Hrr).
+      { rewrite Hn2. lia. }
+      { assumption. }
+      cbn [bind].
+      assert (Canon (XA true r)) as HC by (apply Canon_XA_fixed; [assumption|congruence]).
+      eexists. split; [reflexivity|]. split; [apply Good_of_Canon_A; exact HC|].
+      split; [reflexivity|]. apply abs_concat_eq'; try assumption. apply Ha.
+    + destruct (d_from_f64 v Hc) as (d & -> & Hcd & Hld & Hrd). cbn [bind].
+      destruct (d_prepend_spec d pfx Hcd Hs) as (r & -> & Hcr & Hlr & Hrr); [rewrite Hld; assumption|].
+      cbn [bind].
+      assert (Canon (XA false r)) as HC by (apply Canon_XA_dyn; assumption).
+      eexists. split; [reflexivity|]. split; [apply Good_of_Canon_A; exact HC|].
+      split; [reflexivity|]. apply abs_concat_eq'; try assumption; [apply Ha| |].
+      * unfold xlen in *. cbn [xv]. congruence.
+      * unfold val, xlen, xdata. cbn [xv xw]. rewrite Hrr, Hrd. reflexivity.
+  - (* Bv, heap *)
+    change (xlen (XA false v)) with (wl v) in *.
+    split; [intros Hf; discriminate Hf|intros _].
+    destruct (d_prepend_spec v pfx (Canon_wv _ Hca) Hs H62) as (r & -> & Hcr & Hlr & Hrr). cbn [bind].
+    assert (Canon (XA false r)) as HC by (apply Canon_XA_dyn; assumption).
+    eexists. split; [reflexivity|]. split; [apply Good_of_Canon_A; exact HC|].
+    split; [reflexivity|]. apply abs_concat_eq'; try assumption.
+Qed.
